@@ -35,6 +35,9 @@ pub struct Skeleton {
     /// 0: no assignment; 1: a assigned before closure creation; 2: b assigned after closure
     /// creation; 3: every name assigned after closure creation; the leaf always assigns c
     pub setv: usize,
+    /// how a level creates the closure of the next level: 0 = (let ((g (lambda ...))) ...),
+    /// 1 = internal procedure-form definition (define (g formals...) ...) at the head of the body
+    pub childform: usize,
 }
 
 fn formals(k: &[Kind; 3]) -> String {
@@ -72,15 +75,31 @@ fn assign(n: usize, level: usize, phase: &str) -> String {
 }
 
 impl Skeleton {
-    fn lambda(&self, i: usize) -> String {
-        // i: 0-based level index
+    fn define_formals(k: &[Kind; 3]) -> String {
+        // formals of (define (g . formals) ...): items after the procedure name
+        let f = formals(k);
+        if f == "()" {
+            "".into()
+        } else if f.starts_with('(') {
+            format!(" {}", &f[1..f.len() - 1])
+        } else {
+            format!(" . {}", f)
+        }
+    }
+
+    /// body of level i (0-based) without the enclosing (lambda formals ...)
+    fn body(&self, i: usize) -> String {
         let k = &self.levels[i];
         let level = i + 1;
-        let mut s = format!("(lambda {} ", formals(k));
+        let mut s = String::new();
         for n in 0..3 {
             if k[n] == Kind::Define {
                 s.push_str(&format!("(define {} (list 'd{} {})) ", NAMES[n], level, n));
             }
+        }
+        let has_child = i + 1 < self.levels.len();
+        if has_child && self.childform == 1 {
+            s.push_str(&format!("(define (g{}) {}) ", Self::define_formals(&self.levels[i + 1]), self.body(i + 1)));
         }
         s.push_str(&reads(level, "pre"));
         s.push(' ');
@@ -88,9 +107,10 @@ impl Skeleton {
             s.push_str(&assign(0, level, "pre"));
             s.push(' ');
         }
-        if i + 1 < self.levels.len() {
-            let child = self.lambda(i + 1);
-            s.push_str(&format!("(let ((g {})) ", child));
+        if has_child {
+            if self.childform == 0 {
+                s.push_str(&format!("(let ((g (lambda {} {}))) ", formals(&self.levels[i + 1]), self.body(i + 1)));
+            }
             if self.setv == 2 {
                 s.push_str(&assign(1, level, "post"));
                 s.push(' ');
@@ -106,15 +126,22 @@ impl Skeleton {
             s.push_str(&format!(" (g {}) ", args(&self.levels[i + 1], level + 1, 1)));
             s.push_str(&reads(level, "post"));
             // ... and returned, to be invoked after the creator has returned
-            s.push_str(" g))");
+            s.push_str(" g");
+            if self.childform == 0 {
+                s.push(')');
+            }
         } else {
             // leaf: assign c, read again; repeated invocations see the previous assignment
             s.push_str(&assign(2, level, "leaf"));
             s.push(' ');
             s.push_str(&reads(level, "post"));
-            s.push_str(" 'leaf)");
+            s.push_str(" 'leaf");
         }
         s
+    }
+
+    fn lambda(&self, i: usize) -> String {
+        format!("(lambda {} {})", formals(&self.levels[i]), self.body(i))
     }
 
     pub fn forms(&self) -> Vec<String> {
@@ -172,13 +199,13 @@ impl Skeleton {
                     .collect::<String>()
             })
             .collect();
-        format!("{}/set{}", lv.join("-"), self.setv)
+        format!("{}/set{}/child{}", lv.join("-"), self.setv, self.childform)
     }
 }
 
 /// Number of skeletons with `l` levels.
 pub fn space(l: usize) -> usize {
-    54usize.pow(l as u32) * 4
+    54usize.pow(l as u32) * 8
 }
 
 /// The idx-th skeleton with `l` levels.
@@ -187,12 +214,14 @@ pub fn nth(l: usize, idx: usize) -> Skeleton {
     let mut i = idx;
     let setv = i % 4;
     i /= 4;
+    let childform = i % 2;
+    i /= 2;
     let mut levels = vec![];
     for _ in 0..l {
         levels.push(lk[i % 54]);
         i /= 54;
     }
-    Skeleton { levels, setv }
+    Skeleton { levels, setv, childform }
 }
 
 pub fn random(l: usize, rng: &mut Rng) -> Skeleton {
